@@ -311,6 +311,48 @@ func H_C13() {
 	Cover("operated")
 }
 
+// sharedObject: a node, token or position object reachable from both trees ("" if none).
+func sharedObject(a, b ast.Vertex) string {
+	nodes := map[ast.Vertex]bool{}
+	toks := map[*token.Token]bool{}
+	poss := map[*position.Position]bool{}
+	Walk(a, nil, func(n, _ ast.Vertex) {
+		nodes[n] = true
+		if p := n.GetPosition(); p != nil {
+			poss[p] = true
+		}
+	})
+	for _, t := range TokensOf(a, nil, true) {
+		toks[t] = true
+		if t.Position != nil {
+			poss[t.Position] = true
+		}
+	}
+	what := ""
+	Walk(b, nil, func(n, _ ast.Vertex) {
+		if what != "" {
+			return
+		}
+		if nodes[n] {
+			what = "node " + kindName(KindOf(n))
+		} else if p := n.GetPosition(); p != nil && poss[p] {
+			what = "position of " + kindName(KindOf(n))
+		}
+	})
+	if what != "" {
+		return what
+	}
+	for _, t := range TokensOf(b, nil, true) {
+		if toks[t] {
+			return "token " + t.ID.String()
+		}
+		if t.Position != nil && poss[t.Position] {
+			return "position of token " + t.ID.String()
+		}
+	}
+	return ""
+}
+
 // H_C11: the premise that makes schedules irrelevant - every pipeline writes only
 // memory it allocated itself (no library write to static memory) - plus
 // determinism of parsing (same input twice => identical trees and errors).
@@ -333,12 +375,8 @@ func H_C11() {
 	base := LibStaticWrites()
 	if !IsNilVertex(a.Root) && !IsNilVertex(b.Root) {
 		// no memory is shared between the two results
-		ta, tb := TokensOf(a.Root, nil, true), TokensOf(b.Root, nil, true)
-		if len(ta) > 0 && len(tb) > 0 && ta[0] == tb[0] {
-			Fail("C11:results-share-objects", "token")
-		}
-		if SamePtr(a.Root, b.Root) {
-			Fail("C11:results-share-objects", "root")
+		if what := sharedObject(a.Root, b.Root); what != "" {
+			Fail("C11:results-share-objects", what)
 		}
 		p1 := PrintTree(a.Root).Bytes()
 		d1 := dumpTree(a.Root, true, true)
